@@ -300,7 +300,7 @@ pub fn worker_hist(prop: &str, shard: usize, _nshards: usize, seed: u64, tier: &
     let corpus = gen::corpus();
     let (nhist, len, maxd) = match tier {
         "thorough" => (900, 40, 6u8),
-        _ => (50, 24, 5u8),
+        _ => (if prop == "C18" { 140 } else { 60 }, 24, 6u8),
     };
     let mut rng = Rng::new(seed, 0x6000 + shard as u64);
     for h in 0..nhist {
